@@ -193,6 +193,63 @@ Proof.
   simpl in H. destruct e; simpl; try discriminate; try apply IH.
 Qed.
 
+(** ---- ProcessBlock does not panic (no function of the model answers VPanic) ---- *)
+Lemma connect_block_np : forall s h b, snd (connect_block verr s h b) <> VPanic.
+Proof. intros. unfold connect_block. destruct (N.eqb _ _); simpl; discriminate. Qed.
+
+Lemma attach_np : forall lp s, snd (attach verr s lp) <> VPanic.
+Proof.
+  induction lp as [|[h b] lp IH]; intros s; simpl; [discriminate|].
+  pose proof (connect_block_np s h b) as H. destruct (connect_block verr s h b) as [s' e]. simpl in H.
+  destruct e; try exact H; try discriminate. apply IH.
+Qed.
+
+Lemma vconnect_best_np : forall fin s b td body, snd (vconnect_best verr fin s b td body) <> VPanic.
+Proof.
+  intros. unfold vconnect_best. destruct (N.eqb _ _).
+  - pose proof (connect_block_np s (bid b) body) as H. destruct (connect_block verr s (bid b) body) as [s' e].
+    simpl in H. destruct e; simpl; try discriminate. contradiction.
+  - destruct (find_vnode _ _); [|simpl; discriminate].
+    destruct (_ || _).
+    + destruct (vbranch _ _ _ _); simpl; discriminate.
+    + destruct (vbranch _ _ _ _); simpl; try discriminate.
+      destruct (load_all _ _) as [lp|]; [|simpl; discriminate].
+      match goal with |- context [attach verr ?S lp] =>
+        pose proof (attach_np lp S) as H; destruct (attach verr S lp) as [s2 e] end.
+      simpl in H. destruct e; simpl; try discriminate. contradiction.
+Qed.
+
+Lemma vaccept_np : forall fin s i, snd (vaccept verr fin s i) <> VPanic.
+Proof.
+  intros. unfold vaccept. destruct (find_vnode _ _); [|simpl; discriminate].
+  destruct (negb _); [simpl; discriminate|]. apply vconnect_best_np.
+Qed.
+
+Lemma vporph_np : forall fuel fin q s, snd (vporph verr fuel fin q s) <> VPanic.
+Proof.
+  induction fuel as [|f IH]; intros; simpl; [discriminate|].
+  destruct q as [|p q']; [simpl; discriminate|].
+  destruct (first_vchild _ _) as [c|]; [|apply IH].
+  match goal with |- context [vaccept verr fin ?S c] =>
+    pose proof (vaccept_np fin S c) as H; destruct (vaccept verr fin S c) as [[s1 m] e] end.
+  simpl in H. destruct e; simpl; try discriminate; try apply IH. contradiction.
+Qed.
+
+Lemma no_panic : forall fin s i, snd (snd (vdeliver verr fin s i)) <> VPanic.
+Proof.
+  intros fin s i. unfold vdeliver.
+  destruct (in_vidx _ _); [simpl; discriminate|].
+  destruct (_ && _); [simpl; discriminate|].
+  match goal with |- context [negb (in_vidx ?P (vidx ?S1))] => destruct (negb (in_vidx P (vidx S1))) end;
+    [simpl; discriminate|].
+  match goal with |- context [vaccept verr fin ?S i] =>
+    pose proof (vaccept_np fin S i) as H; destruct (vaccept verr fin S i) as [[s2 ism] e] end.
+  simpl in H. destruct e; simpl; try discriminate; try contradiction.
+  match goal with |- context [vporph verr ?F fin ?Q s2] =>
+    pose proof (vporph_np F fin Q s2) as H2; destruct (vporph verr F fin Q s2) as [s3 e3] end.
+  simpl in H2. destruct e3; simpl; try discriminate. contradiction.
+Qed.
+
 (** the binding of [h] in the block table stays [x] as long as nothing else is
     written under [h] *)
 Lemma fixed_connect_block : forall h x s h' b',
